@@ -191,9 +191,10 @@ type script struct {
 	Name  string `json:"name"`
 	Class string `json:"class"`
 	Subs  int    `json:"subs"`
-	Tail  string `json:"tail"`  // answers to retrieval attempts once a stream is ending: allfail | allok | failthenok
-	Offer bool   `json:"offer"` // keep offering headers while a stream is ending
-	Defer bool   `json:"defer"` // apply all steps first, let the streams end afterwards (model counterexamples)
+	Tail  string `json:"tail"`     // answers to retrieval attempts once a stream is ending: allfail | allok | failthenok
+	Offer bool   `json:"offer"`    // keep offering headers while a stream is ending
+	Defer bool   `json:"defer"`    // apply all steps first, let the streams end afterwards (model counterexamples)
+	Bound int    `json:"bound_ms"` // > 0: once a stream is ending it must close within this much QUIET time
 	Steps []step `json:"steps"`
 }
 
@@ -466,6 +467,40 @@ func (s *scenario) doAtt(sb *subscription, ok bool) bool {
 	return true
 }
 
+// doAttFailNoWait answers the gated retrieval with a failure and does not insist on the retry: the
+// next stimulus (a cancel, a stop) then meets the loop wherever it is after a failed attempt.
+func (s *scenario) doAttFailNoWait(sb *subscription) bool {
+	if sb.pending == nil || s.ending(sb) {
+		return false
+	}
+	sb.emit("attnw", "h", sb.pending.height)
+	s.rep.Count("attempts", 1)
+	s.rep.Count("attempts_failed", 1)
+	p := sb.pending
+	sb.pending = nil
+	p.reply <- false
+	// Give the loop a moment to get past its checks after the failed attempt: either it is back in
+	// the stub (the retry is gated, as it is at once when nothing sits between two attempts) or it is
+	// doing something else between attempts -- which is where the next stimulus shall meet it.
+	grace := time.After(2 * time.Second)
+	for sb.pending == nil {
+		select {
+		case ev := <-s.attCh:
+			e := ev
+			if ev.sub == sb.id {
+				sb.pending = &e
+				s.rep.Count("retries_same_height", 1)
+			} else if o := s.subs[ev.sub]; o.pending == nil {
+				o.pending = &e
+			}
+		case <-grace:
+			s.rep.Count("retry_not_started_within_grace", 1)
+			return true
+		}
+	}
+	return true
+}
+
 func (s *scenario) doConsume(sb *subscription) bool {
 	if sb.unconsumed == 0 || sb.closedSeen {
 		return false
@@ -584,7 +619,16 @@ func (s *scenario) finishStream(sb *subscription) {
 		sb.pending = nil
 		answer(p)
 	}
+	// quiet-time bound: the timer below restarts with every event the harness handles (an attempt
+	// answered at once, a response read, a header taken), so it only runs while no retrieval is
+	// gated, the reader is draining and the cause is in place -- the loop has nowhere to block.
+	bound := time.Duration(s.sc.Bound) * time.Millisecond
+	boundFired := false
 	for s.broken == "" {
+		patience := s.wd
+		if bound > 0 && !boundFired {
+			patience = bound
+		}
 		var feed chan *header.ExtendedHeader
 		if s.sc.Offer && !sb.feedClosed && sb.nextHdr <= nBlocks {
 			feed = sb.feed
@@ -599,6 +643,9 @@ func (s *scenario) finishStream(sb *subscription) {
 				sb.closedSeen = true
 				sb.emit("closed")
 				s.rep.Count("streams_closed", 1)
+				if bound > 0 && !boundFired {
+					s.rep.Count("streak_closed_within_bound", 1)
+				}
 				s.checkEnd(sb)
 				return
 			}
@@ -639,7 +686,13 @@ func (s *scenario) finishStream(sb *subscription) {
 			sb.emit("hdr", "h", sb.nextHdr)
 			sb.nextHdr++
 			s.rep.Count("headers_taken_while_ending", 1)
-		case <-time.After(s.wd):
+		case <-time.After(patience):
+			if bound > 0 && !boundFired {
+				boundFired = true
+				s.violate("C20/close/not-prompt-after-failure-streak", fmt.Sprintf("subscription %d: after a streak of failing retrievals of one height, %v of quiet time after cancel=%v stop=%v the channel is still open (nothing is gated, the reader is reading): the end of the stream waits for something else than the cancellation", sb.id, bound, sb.cancelled, s.stopped))
+				sb.forced = true
+				continue // keep draining so that the goroutine can go away
+			}
 			// quiescence: no retrieval is gated (every attempt is answered at once above), the
 			// reader is reading, the cause is in place -- the loop has nowhere to block
 			s.violate("C20/close/not-closed-after-cause", fmt.Sprintf("subscription %d: %v after cancel=%v stop=%v feedClosed=%v overflow=%v the channel is still open", sb.id, s.wd, sb.cancelled, s.stopped, sb.feedClosed, sb.overflow))
@@ -693,6 +746,8 @@ func (s *scenario) apply(st step) bool {
 		return s.doHdr(sb)
 	case "att":
 		return s.doAtt(sb, st.Ok)
+	case "attnw":
+		return s.doAttFailNoWait(sb)
 	case "consume":
 		return s.doConsume(sb)
 	case "cancel":
@@ -857,6 +912,32 @@ func overflow(rng *rand.Rand, n int) []script {
 	return out
 }
 
+// streaks: one height fails many times in a row (instantaneous here: the stub fails at once), then
+// the subscriber cancels / the service stops right after a failed attempt.  The stream must end
+// within a bounded quiet time -- whatever the loop does between two attempts must watch both
+// contexts.
+func streaks() []script {
+	var out []script
+	for _, trig := range []string{"cancel", "stop"} {
+		for _, k := range []int{10} {
+			for _, pre := range []int{0, 1} {
+				var st []step
+				for i := 0; i < pre; i++ {
+					st = append(st, block(0, 0, true)...)
+				}
+				st = append(st, step{A: "hdr"})
+				for i := 0; i < k-1; i++ {
+					st = append(st, step{A: "att", Ok: false})
+				}
+				st = append(st, step{A: "attnw"}, step{A: trig})
+				out = append(out, script{Name: fmt.Sprintf("streak-%d-fails-then-%s-pre%d", k, trig, pre), Class: "streak",
+					Subs: 1, Tail: "allfail", Bound: 8000, Steps: st})
+			}
+		}
+	}
+	return out
+}
+
 // ---------------------------------------------------------------------------- entry
 
 func TestDriver(t *testing.T) {
@@ -905,6 +986,7 @@ func TestDriver(t *testing.T) {
 			all = append(all, sc)
 		}
 	}
+	all = append(all, streaks()...)
 	all = append(all, systematic()...)
 	all = append(all, overflow(rng, vh.EnvInt("VERIF_OVERFLOW", 6))...)
 	all = append(all, seeded(rng, vh.EnvInt("VERIF_SEEDED", 200))...)
